@@ -299,7 +299,7 @@ Theorem C10_step_from_first_value :
 Proof. exact (fun name f v0 pre v => from_first_value name f v0 pre v (fun _ _ => Logic.I)). Qed.
 Print Assumptions C10_step_from_first_value.
 
-(* every record is emitted exactly once.  PARTIAL: stated on the witnesses of the repaired defect (fix: b0d126048; before it
+(* every record is emitted exactly once.  PARTIAL: stated on the witnesses of the repaired defect (fix: 1cf092ed2; before it
    shift_lead_n, n >= 2, lost the records of groups shorter than n: C10_step_emits_every_record_refuted of the earlier rounds)
    -- a one-record stream under shift_lead_2, and two interleaved short groups under shift_lead_3 + counter: every record comes
    out once, in arrival order, with an empty look-ahead value.  The statement for ALL streams (length (verb_step ..) = length rs)
@@ -739,7 +739,7 @@ Proof. vm_compute. repeat split; reflexivity. Qed.
 
 (* ================================================================== round 3: stats1 as a whole (Verbs4.v) *)
 From Miller Require Import C10.Verbs4 C10.ProofsStats1G.
-(* names given twice in -a / -f are kept once (fix: 354e61d24): the NoDup hypotheses of C10_stats1_cell_is_accumulator_run
+(* names given twice in -a / -f are kept once (fix: df62dcee7): the NoDup hypotheses of C10_stats1_cell_is_accumulator_run
    hold for what the verb runs on, for ANY -a and -f lists; every requested name survives *)
 Theorem C10_stats1_names_given_twice_are_kept_once :
   forall accs fs, NoDup (uniq_names fs) /\ NoDup (map req_text (uniq_accs accs))
